@@ -79,8 +79,11 @@ def gen_programs(ctx, d, name, nd, ntasks, maxacc, num, ranks=(0, 1, 2, 3), mode
     return [{"nd": nd, "tasks": h} for h in hs]
 
 
-def prog_line(p, fl="A", w=2048, th=2048, ins=0, sp=(50, 300)):
+def prog_line(p, fl="A", w=2048, th=2048, ins=0, sp=(50, 300), ar=0):
+    """ar=1: tiles 4 ints wide accessed with the SECOND attached arena datatype (id 1; id 0 = a one-int datatype)."""
     head = "nd=%d fl=%s w=%d th=%d ins=%d sp=%d:%d" % (p["nd"], fl, w, th, ins, sp[0], sp[1])
+    if ar:
+        head += " ar=1"
     segs = [head]
     for t in p["tasks"]:
         segs.append("%d %d %s" % (t["rank"], len(t["accs"]), " ".join("%d %d" % (a["d"], MODE_NUM[a["m"]]) for a in t["accs"])))
@@ -233,11 +236,12 @@ def corrupted_rejected(ctx, module, events):
 WINDOWS = [(1, 0), (2, 1), (2048, 2048)]
 
 
-def lines_for(progs, windows, fl="A", ins=0, sp=(50, 300), rot=0):
+def lines_for(progs, windows, fl="A", ins=0, sp=(50, 300), rot=0, ar=None):
+    """ar: None, or function(index) -> 0 / 1 (wide tiles + second arena datatype for that program)."""
     lines = []
     for i, p in enumerate(progs):
         w, th = windows[(i + rot) % len(windows)]
-        lines.append(prog_line(p, fl=fl, w=w, th=th, ins=ins, sp=sp))
+        lines.append(prog_line(p, fl=fl, w=w, th=th, ins=ins, sp=sp, ar=ar(i) if ar else 0))
     return lines
 
 
@@ -282,7 +286,9 @@ def run(ctx):
     mp = (progs[:20] + dups[:4]) if ctx.quick else (progs[:400] + dups[:60])
     for nr in ([2, 3] if ctx.quick else [2, 3, 4]):
         s, t = [c for c in configs if c[0] != "ll"][nr % 3]      # ll ping-pongs a re-queued writer between two threads
-        multi += run_batch(ctx, exe, lines_for(mp, [(2048, 2048), (2, 1)], sp=(20, 100)), "m%d" % nr,
+        # every other pair of programs: tiles 4 ints wide under the second attached arena datatype (id 1)
+        multi += run_batch(ctx, exe, lines_for(mp, [(2048, 2048), (2, 1)], sp=(20, 100),
+                                               ar=lambda i, nr=nr: ((i // 2) + nr) % 2), "m%d" % nr,
                            threads=max(2, t), sched=s, nranks=nr, timeout=900, max_restarts=len(dups),
                            env={"VERIF_ALARM": "30"})
     nv += validate(ctx, "SeqTraceValues", multi, merged_events,
@@ -290,6 +296,7 @@ def run(ctx):
     ctx.evaluations = len(single) + len(dsingle) + len(multi)
     ctx.extra["executions_single"] = len(single) + len(dsingle)
     ctx.extra["executions_multi"] = len(multi)
+    ctx.extra["executions_multi_two_arena_datatypes"] = sum(1 for x in multi if " ar=1" in x.line)
     ok = [x for x in single if not x.failed]
     if ok:
         ctx.sample({"config": ok[0].cfg, "trace": single_events(ok[0])[:12]})
